@@ -86,6 +86,35 @@ func (e *Engine) registerEnvIntrinsics(pkgPath string) {
 		ri.params[key] = p
 		return nil
 	})
+	// vrtReqParamRaw(rb, key, has, raw, val): a query parameter whose raw (still
+	// percent-encoded) text is given explicitly; val is what it decodes to
+	reg("vrtReqParamRaw", func(x *Exec, fr *frame, a []Value) Value {
+		ri := x.force(a[0]).(*Native).Data.(*reqInfo)
+		key := x.constStr(a[1], "parameter name")
+		p := &paramInfo{key: key, qHas: x.term(a[2]), qRaw: x.term(a[3]), qVal: x.term(a[4]), bHas: FalseT, bVal: StrC("")}
+		if _, dup := ri.params[key]; !dup {
+			ri.order = append(ri.order, key)
+		}
+		ri.params[key] = p
+		return nil
+	})
+	// vrtEscapeStyle(style, s): s percent-encoded for a query string in one of the
+	// legal styles: 0 Go's url.QueryEscape (upper-case hex, '+' for space), 1 lower-case hex,
+	// 2 "%20" for space
+	reg("vrtEscapeStyle", func(x *Exec, fr *frame, a []Value) Value {
+		st := x.term(a[0])
+		if !st.IsConst() {
+			panic(abortf("vrtEscapeStyle needs a concrete style"))
+		}
+		t := x.term(a[1])
+		if st.I == 0 {
+			return x.callModel("net/url.QueryEscape", fr, t)
+		}
+		if t.IsConst() {
+			return StrC(EscapeStyle(int(st.I), t.S))
+		}
+		return UF(fmt.Sprintf("qe%d", st.I), t)
+	})
 	reg("vrtReqBody", func(x *Exec, fr *frame, a []Value) Value {
 		ri := x.force(a[0]).(*Native).Data.(*reqInfo)
 		ri.body = x.term(a[1])
@@ -107,7 +136,9 @@ func (e *Engine) registerEnvIntrinsics(pkgPath string) {
 		uc := x.newCell(zeroValue(ut), ut, "request URL")
 		up := &Pointer{Cell: uc}
 		x.setField(up, ut, "Path", ri.path)
-		x.setField(up, ut, "RawQuery", x.sym(ri.name+".rawquery", SStr))
+		rq := x.sym(ri.name+".rawquery", SStr)
+		x.rawQueries[rq.S] = ri
+		x.setField(up, ut, "RawQuery", rq)
 		x.urlInfos[uc] = &urlInfo{req: ri}
 		c := x.newCell(zeroValue(rt), rt, "request")
 		p := &Pointer{Cell: c}
@@ -547,7 +578,7 @@ func splitQuery(q *Term) ([]queryParam, bool) {
 				break
 			}
 			v := ps[i+1]
-			if !(v.Op == "uf" && v.S == "qe") {
+			if !(v.Op == "uf" && escapeUF[v.S]) {
 				return nil, false
 			}
 			out = append(out, queryParam{key, v})
